@@ -607,6 +607,7 @@ func registerOverrides(e *Engine) {
 
 	registerSync(e)
 	registerSyncMap(e)
+	registerSyncPool(e)
 	registerEnv(e)
 }
 
